@@ -7,11 +7,14 @@
    C07_equal_iff_bytes proves "Equal <-> equal Bytes" for all valid elements (any two
    representations of curve points with y <> 0) under two EXPLICIT number-theoretic
    premises: p is prime and d is a non-square (stated as: d w^2 <> 1 for every w).
-   PARTIAL: "decoding P.Bytes() succeeds and gives an element Equal to P" needs the
-   completeness of the table-driven square root (C17 partial); decided by correspondence. *)
+   C07_decode_bytes_roundtrip: decoding P.Bytes() (untrusted decoder) succeeds and gives an
+   element with the same encoding, Equal to P, for every valid element - under the same two
+   premises plus: the encoded x passes the subgroup test (true on the prime-order subgroup)
+   and y^Q lies in the dyadic subgroup (Fermat + cyclic Fp^*, cf. C17).  The non-number-
+   theoretic premises are shown to hold for the generator by kernel computation. *)
 From Coq Require Import ZArith List.
-From GoIpa Require Import Model.Zq Model.Alg Model.Edwards Model.FpSqrt Model.Banderwagon
-  Proofs.AlgLaws Proofs.EdwardsProofs Proofs.GroupProofs Proofs.BwProofs Proofs.CanonProofs.
+From GoIpa Require Import Model.Zq Model.Alg Model.Edwards Model.SqrtChain Model.FpSqrt Model.Banderwagon
+  Proofs.AlgLaws Proofs.EdwardsProofs Proofs.GroupProofs Proofs.BwProofs Proofs.CanonProofs Proofs.DyadicProofs Proofs.RoundTrip.
 Open Scope Z_scope.
 
 (* Bytes does not change under projective rescaling (any invertible factor, incl. the
@@ -74,3 +77,15 @@ Example C07_example :
   bw_bytes G2 = bw_bytes G2' /\ bw_equal G2 G2' = true /\ bw_equal G2 bw_generator = false
   /\ bw_bytes G2 <> bw_bytes bw_generator.
 Proof. vm_compute. repeat split; discriminate. Qed.
+
+(* Decoding P.Bytes() succeeds and gives an element Equal to P (and with the same bytes) *)
+Theorem C07_decode_bytes_roundtrip :
+  Znumtheory.prime p_mod -> (forall w : Fp, zq_mul bw_d (zq_mul w w) <> zq_one) ->
+  forall P p,
+    rep fpo P p -> on_curve_p p -> zval (snd p) <> 0 -> nonzero_xy P ->
+    subgroup_check (cx p) = true ->
+    in_dyadic (zq_pow (snd p) chain_exp_root) ->
+    exists P', bw_set_bytes (bw_bytes P) false = inl P'
+               /\ bw_bytes P' = bw_bytes P /\ bw_equal P' P = true.
+Proof. exact decode_bytes_roundtrip. Qed.
+Print Assumptions C07_decode_bytes_roundtrip.
